@@ -85,7 +85,27 @@ Definition grow (r : read_res) (receiver : vhdr) (do_grow : bool) : hist_res :=
 
 (* the header of the subject after its history; (n, cols, size) is the nominal shape, w its word size,
    words = cols*size (vectors) or rows*cols_in*cols_out*size (matrices) *)
-Definition hist_hdr (vec chk : bool) (n cols size w words hist hp1 hp2 : Z) : hist_res :=
+(* history 13: a self-consistent stream describing a LARGER object (one dimension bumped) is read into the receiver;
+   the reader must return Err and leave the receiver as it was (or, when the 64-byte rounding of the receiver's buffer
+   happens to hold the larger object, accept it); the receiver is then USED *)
+Definition bump3 (n cols size how : Z) : Z * Z * Z :=
+  if how =? 0 then (2 * n, cols, size) else if how =? 1 then (n, cols + 1, size) else (n, cols, size + 1).
+Definition apply_read (v : vhdr) (r : read_res) : vhdr := match r with RErr => v | ROk v' => v' end.
+Definition read_larger (rc : vhdr) (how : Z) : vhdr :=
+  let '(n2, c2, s2) := bump3 (v_n rc) (v_cols rc) (v_size rc) how in
+  apply_read rc (v_read_from rc (mkS n2 c2 s2 s2 (n2 * c2 * s2 * 8)) (n2 * c2 * s2 * 8)).
+
+Definition bump5 (n size rows cin cout how : Z) : Z * Z * Z * Z * Z :=
+  if how =? 0 then (2 * n, size, rows, cin, cout) else if how =? 1 then (n, size + 1, rows, cin, cout)
+  else if how =? 2 then (n, size, rows + 1, cin, cout) else if how =? 3 then (n, size, rows, cin + 1, cout)
+  else (n, size, rows, cin, cout + 1).
+Definition m_apply_read (m : mhdr) (r : option mhdr) : mhdr := match r with Some m' => m' | None => m end.
+Definition m_read_larger (m : mhdr) (how : Z) : mhdr :=
+  let '(n2, s2, r2, ci2, co2) := bump5 (m_n m) (m_size m) (m_rows m) (m_cin m) (m_cout m) how in
+  let len := r2 * ci2 * n2 * co2 * s2 * 8 in
+  m_apply_read m (m_read_from m n2 s2 r2 ci2 co2 len len).
+
+Definition hist_hdr (vec chk ser : bool) (n cols size w words hist hp1 hp2 : Z) : hist_res :=
   let plain := mkV n cols size size (n * words * w) w in
   if hist =? 0 then HOk plain
   else if hist =? 1 then HOk (mkV n cols size (size + hp1) (n * cols * (size + hp1) * w) w)
@@ -97,6 +117,7 @@ Definition hist_hdr (vec chk : bool) (n cols size w words hist hp1 hp2 : Z) : hi
     if chk then match v_from_data_checked len n cols size w with Some v => HOk v | None => HBad end
     else HOk (v_from_data len n cols size w)
   else if hist =? 11 then let n' := if hp1 =? 0 then Z.max (n / 2) 1 else n * 2 in HOk (mkV n' cols size size (n' * words * w) w)
+  else if hist =? 13 then (if ser then HOk (read_larger (v_alloc n cols size 8) hp1) else HBad)
   else if negb vec then HBad
   else if hist =? 2 then HOk (v_realloc (v_alloc n cols hp2 8) size)
   else if (hist =? 3) || (hist =? 4) then
@@ -116,6 +137,19 @@ Definition hist_hdr (vec chk : bool) (n cols size w words hist hp1 hp2 : Z) : hi
   else HBad.
 
 Definition hdr_list (v : vhdr) : list Z := [v_n v; v_cols v; v_size v; v_max v; v_len v; v_w v].
+(* matrix subjects report [n, cols_in, size, size, |data|, w, rows, cols_out] *)
+Definition mat_list (m : mhdr) : list Z := [m_n m; m_cin m; m_size m; m_size m; m_len m; m_w m; m_rows m; m_cout m].
+Definition wf_mb (m : mhdr) : bool :=
+  (0 <=? m_n m) && (0 <=? m_rows m) && (0 <=? m_cin m) && (0 <=? m_cout m) && (0 <=? m_size m) && (0 <=? m_len m) && (0 <? m_w m).
+Definition InvMb (m : mhdr) : bool := m_bytes_of (m_n m) (m_rows m) (m_cin m) (m_cout m) (m_size m) (m_w m) <=? m_len m.
+(* history of a matrix subject: fresh / carved / shifted view (exact region), another ring degree, or (MatZnx only)
+   the rejected read of a larger matrix into an owned receiver *)
+Definition mat_hist (is_matznx : bool) (n rows cin cout size w hist hp1 : Z) : option mhdr :=
+  let exact (n' : Z) := mkM n' rows cin cout size (n' * (rows * cin * cout * size) * w) w in
+  if (hist =? 0) || (hist =? 7) || (hist =? 8) then Some (exact n)
+  else if hist =? 11 then Some (exact (if hp1 =? 0 then Z.max (n / 2) 1 else n * 2))
+  else if (hist =? 13) && is_matznx then Some (m_read_larger (m_alloc n rows cin cout size 8) hp1)
+  else None.
 
 (* nominal shape of operand o *)
 Definition nominal (ps : list Z) (ks : Z * Z * Z) (o : Z) : Z * Z * Z * Z :=     (* cols, size, words, kind *)
@@ -140,21 +174,47 @@ Definition run_c17 (code : Z) (ps : list Z) (vs : list (list Z)) : option (list 
   match op_kinds opc with
   | None => None
   | Some ks =>
+    if (90 <=? opc) && (opc <=? 93) then
+      (* core level: GLWE operands carved by take_glwe (exact window), key owned (GGLWE: rows = dnum, cols_in = rank,
+         cols_out = rank + 1; GGSW: cols_in = rank + 1); history 7 = carved, 13 = rejected read of a larger object first *)
+      let rank := p ps 18 in let dsize := Z.max (p ps 19) 1 in
+      if subj <? 2 then
+        let cols := p ps (7 + 3 * Z.to_nat subj) in let size := p ps (8 + 3 * Z.to_nat subj) in
+        let plain := mkV n cols size size (n * cols * size * 8) 8 in
+        if hist =? 7 then Some [[0; 1; 0; 1]; hdr_list plain]
+        else if hist =? 13 then
+          let v := read_larger plain 2 in
+          Some [[if wf_vb v && Invb v then 0 else 3; 1; 0; 1]; hdr_list v]
+        else None
+      else
+        let dnum := Z.max ((p ps 11 + dsize - 1) / dsize) 1 in
+        let cin := if opc =? 92 then rank else rank + 1 in
+        let m := m_read_larger (m_alloc n dnum cin (rank + 1) (p ps 14) 8) hp1 in
+        if hist =? 13 then Some [[if wf_mb m && InvMb m then 0 else 3; 1; 0; 1]; mat_list m] else None
+    else
     let '(cols, size, words, kind) := nominal ps ks subj in
     let w := w_of kind be in
-    match hist_hdr (kind =? K_Z) ((kind =? K_Z) || (kind =? K_S) || (kind =? K_B) || (kind =? K_D) || (kind =? K_P)) n cols size w words hist hp1 hp2 with
+    let mat := (kind =? K_M) || (kind =? K_V) in
+    if mat then
+      let rows := p ps 16 in let cin := p ps 10 in let cout := p ps 7 in
+      match mat_hist (kind =? K_M) n rows cin cout size w hist hp1 with
+      | None => None
+      | Some m => Some [[if wf_mb m && InvMb m then 0 else 3; 1; 0; 1]; mat_list m]
+      end
+    else
+    match hist_hdr (kind =? K_Z) ((kind =? K_Z) || (kind =? K_S) || (kind =? K_B) || (kind =? K_D) || (kind =? K_P))
+                   ((kind =? K_Z) || (kind =? K_S)) n cols size w words hist hp1 hp2 with
     | HBad => None
     | HRejected v => Some [[2; 1; 0; 1]; hdr_list v]
     | HOk v =>
-      let mat := (kind =? K_M) || (kind =? K_V) in
-      if negb mat && negb (wf_vb v && Invb v) then Some [[3; 1; 0; 1]; hdr_list v]
+      if negb (wf_vb v && Invb v) then Some [[3; 1; 0; 1]; hdr_list v]
       else
         (* column selectors: at() / at_mut() assert i < cols (the subject with its post-history header) *)
         let col_ok (o : Z) : bool :=
           let k := kind_of ks o in
           if (k =? K_NONE) || (k =? K_M) || (k =? K_V) then true
           else let c := p ps (9 + 3 * Z.to_nat o) in
-               let cs := if (o =? subj) && negb mat then v_cols v else p ps (7 + 3 * Z.to_nat o) in
+               let cs := if o =? subj then v_cols v else p ps (7 + 3 * Z.to_nat o) in
                c <? cs in
         (* vmp family: no column selectors *)
         let sel := (opc <? 70) in
@@ -176,7 +236,9 @@ Definition oracle_c17 (code : Z) (ps : list Z) (vs outs : list (list Z)) : Z :=
   let mat := match op_kinds opc with
              | Some ks => let k := kind_of ks subj in (k =? K_M) || (k =? K_V)
              | None => false end in
-  let inv_ok := mat || (wf_vb v && Invb v) in
+  let m := mkM (nth 0 h 0) (nth 6 h 0) (nth 1 h 0) (nth 7 h 0) (nth 2 h 0) (nth 4 h 0) (nth 5 h 0) in
+  let is8 := Nat.eqb (length h) 8 in
+  let inv_ok := if is8 then wf_mb m && InvMb m else (mat || (wf_vb v && Invb v)) in
   if status =? 2 then (if (can =? 1) && (viol =? 0) then 1 else 0)
   else if negb inv_ok then 0
   else if status =? 3 then 0
